@@ -224,7 +224,9 @@ func (l *Lexer) Next() (TokenType, []byte) {
 func (l *Lexer) shiftRawText() []byte {
 	if l.rawTag == Plaintext {
 		for {
-			if l.r.Peek(0) == 0 && l.r.Err() != nil {
+			if l.skipTemplate() {
+				continue
+			} else if l.r.Peek(0) == 0 && l.r.Err() != nil {
 				return l.r.Shift()
 			}
 			l.r.Move(1)
